@@ -7,7 +7,8 @@ from . import _difffam as FAM
 
 ID = 'C02'
 LEAN_TARGETS = ['Properties.C02']
-THEOREMS = ['Diff.C02_copy_empty', 'Diff.C02_alignRefl_of_equal_only', 'Diff.C02_N_spoof_set']
+THEOREMS = ['Diff.C02_copy_empty', 'Diff.C02_alignRefl_of_equal_only', 'Diff.C02_N_spoof_set', 'Diff.C02_empty_implies_equal', 'Diff.C02_set_members_deephash',
+            'Diff.C02_empty_implies_equal_deephash']
 RULE = ('nested values and (a) their deep copies, (b) their single-edit neighbours (every kind of one-step difference at every depth), (c) random edits, under '
         'view x verbose_level in {1,2} x threshold_to_diff_deeper x zip_ordered_iterables x cache_size x max_passes (and ignore_order for the copy clause); '
         'emptiness is compared with structural / Python equality and the full result with the Lean model. distinct = distinct (t1, t2, config); '
@@ -122,6 +123,7 @@ def run(ctx, impl_only=False):
                 ctx.violate(case, 'empty diff although t1 != t2 (t1 and t2 share objects)')
             if bool(d) != bool(d2):
                 ctx.violate(case, 'sharing objects between / inside the inputs changes the verdict')
+    align_sound(ctx)
     if not impl_only:
         FAM.compare_with_model(ctx, reqs)
     wit = {'F5e': lambda: bool(DeepDiff({'NONE'}, {None})),
@@ -133,6 +135,35 @@ def run(ctx, impl_only=False):
             (ctx.known_not_reproduced if ok else ctx.known_reproduced).append(fid if ok else '%s: %s' % (fid, findings[fid]['what_fails']))
         elif not ok:
             ctx.violate({'witness': fid}, 'boundary witness %s fails and is not a listed finding' % fid)
+
+
+def align_sound(ctx):
+    """assumption AlignSound of C02_empty_implies_equal on the real difflib: when get_opcodes() answers with 'equal' blocks only (or every
+    other block is empty), the two lists of scalars are equal item by item; and AlignRefl: a list against itself gives 'equal' blocks only"""
+    import difflib
+    pool = [0, 1, 2, 3, True, False, 1.0, 0.0, 2.5, 'a', 'b', '', None, b'a', 'A']
+    n = 4000 if ctx.thorough() else 600
+    for _ in range(n):
+        a = [ctx.rng.choice(pool) for _ in range(ctx.rng.randint(0, 7))]
+        r = ctx.rng.random()
+        if r < 0.3:
+            b = list(a)
+        elif r < 0.6:
+            b = [({1: True, 0: False, True: 1.0, False: 0, 1.0: 1, 0.0: False}.get(x, x) if type(x) in (int, bool, float) and ctx.rng.random() < 0.5 else x) for x in a]   # == but another type
+        else:
+            b = list(a)
+            if b and ctx.rng.random() < 0.7:
+                b[ctx.rng.randrange(len(b))] = ctx.rng.choice(pool)
+            if ctx.rng.random() < 0.3:
+                b.insert(ctx.rng.randint(0, len(b)), ctx.rng.choice(pool))
+        ops = difflib.SequenceMatcher(None, a, b, autojunk=False).get_opcodes()
+        silent = all(tag == 'equal' or (i1 == i2 and j1 == j2) for tag, i1, i2, j1, j2 in ops)
+        ctx.evaluations += 1
+        ctx.count('align_sound:' + ('all_equal' if silent else 'other'))
+        if silent and not (len(a) == len(b) and all(x == y for x, y in zip(a, b))):
+            ctx.violate({'t1': repr(a), 't2': repr(b), 'clause': 'AlignSound'}, 'difflib answers all-equal for lists that differ: %r' % (ops,))
+        if strict_eq(a, b) and not silent:
+            ctx.violate({'t1': repr(a), 't2': repr(b), 'clause': 'AlignRefl'}, 'difflib reports a change between a list and its copy: %r' % (ops,))
 
 
 def search(ctx):
